@@ -735,6 +735,41 @@ func rulePublication(c *core.Ctx) {
 			rs := r.AST.(*ast.ReturnStmt)
 			if core.ObjOf(info, rs.Results[0]) == looks[0].Val {
 				hit = okEdgeGuard(g, r, looks[0].Ok, true)
+				if !hit {
+					// one common return of a variable that holds the cached value on the hit edge and
+					// is given the caller's value on the miss edge (winner, taken := cache[k]; if !taken
+					// { ...; winner = res }; return winner)
+					var redefs []*core.V
+					for _, dv := range defVertices(g, looks[0].Val) {
+						if dv != looks[0].V {
+							redefs = append(redefs, dv)
+						}
+					}
+					var hitE, missE []core.EdgeRef
+					for _, bv := range g.BranchVertices() {
+						for _, l := range []core.EdgeLabel{core.EdgeTrue, core.EdgeFalse} {
+							for _, a := range bv.Implied(l) {
+								if id, isID := ast.Unparen(a.Expr).(*ast.Ident); isID && a.Tag == nil && info.ObjectOf(id) == looks[0].Ok {
+									if a.Neg {
+										missE = append(missE, core.EdgeRef{From: bv, Label: l})
+									} else {
+										hitE = append(hitE, core.EdgeRef{From: bv, Label: l})
+									}
+								}
+							}
+						}
+					}
+					if len(redefs) > 0 && len(hitE) > 0 && len(missE) > 0 {
+						// on the hit edge the looked-up value arrives unchanged, on the miss edge it never does
+						viaHit := g.ReachFrom(looks[0].V, false, core.AvoidVs(redefs...).WithEdges(missE...))[r]
+						viaMiss := g.ReachFrom(looks[0].V, false, core.AvoidVs(redefs...).WithEdges(hitE...))[r]
+						if viaHit && !viaMiss {
+							hit = true
+						} else if viaMiss {
+							o.FailAt(fn.Site(rs, ""), "on the miss edge the variable of the lookup is returned unchanged (the zero value)")
+						}
+					}
+				}
 			} else {
 				o.Require(okEdgeGuard(g, r, looks[0].Ok, false), "the caller's own value is returned although another value is published")
 			}
@@ -791,6 +826,11 @@ func rulePublication(c *core.Ctx) {
 			return
 		}
 		o.At(fn.Site(cs[0].Call, "publish"))
+		if len(cs[0].Call.Args) != 3 {
+			o.Count(1)
+			o.Unrec("cacheStoreOrLoad is called with %d arguments (the chain, the type and the value bundled into a struct?): what is published under which references is not followed", len(cs[0].Call.Args))
+			return
+		}
 		as, ok := cs[0].V.AST.(*ast.AssignStmt)
 		returned := false
 		if rs, isRet := cs[0].V.AST.(*ast.ReturnStmt); isRet && len(rs.Results) == 2 {
@@ -1048,6 +1088,21 @@ func ruleDecodeExclusive(c *core.Ctx) {
 			}
 		}
 		if wr == nil {
+			// the marker may keep the outcome in another form (one struct field): then it is not located
+			hasVal := false
+			if tn, ok := c.Prog.Pkg("pdf").Types.Scope().Lookup("pending").(*types.TypeName); ok {
+				if stt, isS := tn.Type().Underlying().(*types.Struct); isS {
+					for i := 0; i < stt.NumFields(); i++ {
+						if stt.Field(i).Name() == "val" {
+							hasVal = true
+						}
+					}
+				}
+			}
+			if !hasVal {
+				o.Unrec("the pending marker has no field val: where the outcome is recorded is not located")
+				return
+			}
 			o.Fail("the outcome is never recorded in the pending marker")
 			return
 		}
